@@ -628,6 +628,10 @@ func (g *Gen) resolveLocal(name string, b *ssa.BasicBlock, limit int, e *Env) (T
 			if !ok || id.Name != name {
 				continue
 			}
+			// skip the second DebugRef go/ssa emits for an implicitly converted use
+			if obj := dr.Object(); obj != nil && !dr.IsAddr && !types.Identical(dr.X.Type(), obj.Type()) {
+				continue
+			}
 			// prefer the deepest dominator: later blocks in dominator order override
 			if best == nil || dominatesOrSame(blockOf(best), bb) {
 				best, bestAddr = dr.X, dr.IsAddr
